@@ -10,7 +10,7 @@ HERE = os.path.dirname(os.path.dirname(os.path.abspath(__file__)))
 def main():
     print("| id | what the change does (sub-agent's summary, shortened) | needs to manifest | tests still 176/176 | detected by (quick) | first evaluation |")
     print("|---|---|---|---|---|---|")
-    n = det = 0
+    n = det = nonv = 0
     for d in sorted(glob.glob(os.path.join(HERE, "seeded", "C*"))):
         m = json.load(open(os.path.join(d, "meta.json")))
         n += 1
@@ -24,6 +24,10 @@ def main():
             first = "MISSED, check strengthened"
         if not cur:
             first = "MISSED"
+        if m.get("not_a_violation"):
+            first = "not a violation of the property as stated (deliberately not flagged; see meta.json)"
+            nonv += 1
+            det -= bool(cur)
         summ = (m.get("summary") or "").replace("|", "/").replace("\n", " ")
         need = (m.get("needs_to_manifest") or "").replace("|", "/").replace("\n", " ")
         t = m.get("tests_with_change") or {}
@@ -35,7 +39,7 @@ def main():
                     first_cls = l.split("violation class=")[1].split(" :: ")[0][:110]
                     break
         print(f"| {m['id']} | {summ[:170]} | {need[:150]} | {t.get('passed')}/{176} | {', '.join(cur) or '—'} {('`' + first_cls + '`') if first_cls else ''} | {first} |")
-    print(f"\n{n} confirmed seeded changes, {det} detected by the registered quick checks.")
+    print(f"\n{n} seeded changes, {nonv} judged not to violate the property as stated, {det} of the other {n - nonv} detected by the registered quick checks.")
 
 
 if __name__ == "__main__":
